@@ -636,6 +636,17 @@ fn malformed(ctx: &mut Ctx, base: &Xstate, fails: &mut Fails) {
     check(ctx, fails, "", out != "panic", || format!("C12 {} {}", w, canon::stack_str(&args)), || "a result or an error value, never a panic".into(), || out.clone());
 }
 
+/// NaN anywhere inside a value: outside the property's quantifier ("non-NaN reals"); `equal?` of two containers
+/// that hold a NaN depends on whether they share structure (rpds compares shared nodes by address first)
+fn contains_nan(c: &Cell) -> bool {
+    match c.value() {
+        Cell::Real(r) => r.is_nan(),
+        Cell::Vector(v) => v.iter().any(contains_nan),
+        Cell::Map(m) => m.iter().any(|(k, v)| contains_nan(k) || contains_nan(v)),
+        _ => false,
+    }
+}
+
 fn equal_cases(ctx: &mut Ctx, base: &Xstate, fails: &mut Fails) {
     let a = gen_value(&mut ctx.rng, 2);
     let b = match ctx.rng.below(3) {
@@ -643,6 +654,7 @@ fn equal_cases(ctx: &mut Ctx, base: &Xstate, fails: &mut Fails) {
         1 => gen_tagged(&mut ctx.rng, a.clone(), 1),
         _ => gen_value(&mut ctx.rng, 2),
     };
+    if contains_nan(&a) || contains_nan(&b) { ctx.tag("equal?:nan-outside-the-quantifier"); return; }
     let (out, _) = run_src(base, "equal?", &[a.clone(), b.clone()]);
     ctx.tag("word:equal?");
     let exp = canon::ok_stack(&[Cell::Flag(same(&a, &b))]);
